@@ -579,6 +579,25 @@ def r19_4(ctx, m):
                     max_updates[norm(t)] = (g, s)
                 ctx.check(ok, "R19.4", f.where(s), f"`{norm(t)}` is a running maximum: assigned only under `{norm(t)} < value` with the same value (last-writer-wins would depend on record order)", key_of(f, f"max:{norm(s)}"), why=None if ok else why)
     ctx.require_count("R19.4", n, 4, f.where(m.loop), "accumulator updates in the record loop")
+    # every per-read value that the report reads after the loop is kept up to date inside it
+    after = []
+    seen_loop = False
+    for st in f.node.body:
+        if st is m.loop:
+            seen_loop = True
+        elif seen_loop:
+            after.append(st)
+    entry_vars = set()
+    for st in after:
+        for lp_ in ast.walk(st):
+            if isinstance(lp_, ast.For) and isinstance(lp_.iter, ast.Call) and isinstance(lp_.iter.func, ast.Attribute) and lp_.iter.func.attr in ("items", "values") and norm(lp_.iter.func.value) in accs:
+                tg_ = lp_.target.elts[-1] if isinstance(lp_.target, ast.Tuple) else lp_.target
+                if isinstance(tg_, ast.Name):
+                    entry_vars.add(tg_.id)
+    read_attrs = sorted({x.attr for st in after for x in ast.walk(st) if isinstance(x, ast.Attribute) and isinstance(x.ctx, ast.Load) and isinstance(x.value, ast.Name) and x.value.id in entry_vars})
+    updated = {k.rsplit(".", 1)[-1] for k in max_updates} | {norm(s_.target).rsplit(".", 1)[-1] for s_ in walk_stmts(m.loop.body) if isinstance(s_, ast.AugAssign)}
+    for a in read_attrs:
+        ctx.check(a in updated, "R19.4", f.where(m.loop), f"the per-read value `{a}` that the report averages is updated for every later record of the read", key_of(f, f"per-read-not-updated:{a}"))
     # every maximum guard is evaluated on every path of the 'read already seen' branch
     if max_updates:
         seen_paths = [p for p in m.paths if not any(e.kind == "test" and e.node is m.sec_if.test and e.pol for e in p.events)]
